@@ -203,6 +203,11 @@ pub fn run(mut run: Run) -> i32 {
         B { name: "end-pokes-through-middle", a: (-1000.0, 0.25), b: (1000.0, 1.75), c: (-446.5, 994.5), d0: (250.0, 1.1875) },
         B { name: "end-pokes-through-middle-steep", a: (0.1, -700.0), b: (0.7, 900.0), c: (812.3, 55.5), d0: (0.4, 100.0) },
         B { name: "endpoint-near-endpoint", a: (0.1, 0.3), b: (0.7, 0.2), c: (0.9, 0.9), d0: (0.7, 0.2) },
+        // almost-T-junctions with non-dyadic coordinates of mixed magnitude: the moving endpoint sits within an ulp of the other segment, the
+        // crossing is proper by a hair, and the conditioned coordinates round differently from the de-conditioned ones
+        B { name: "near-T-junction-1", a: (-0.4732474777488562, 63.47512202128044), b: (41.908813300523605, 85.96026337903928), c: (5.325883290967752, 64.53154059900652), d0: (0.04393475338650399, 63.749504988065326) },
+        B { name: "near-T-junction-2", a: (23.27589170824905, 57.35587248465694), b: (-7.47226222019745, -12.368650054678469), c: (6.765271600504288, 35.13066062799928), d0: (14.771419646088605, 38.07112923265082) },
+        B { name: "near-T-junction-3", a: (-4.419963268257902, 29.112122885437486), b: (94.58821108391714, -30.060437678835953), c: (7.087926465279592, 32.49300298997202), d0: (-1.9891558503258415, 27.659342848851445) },
     ];
     let ww = (w * w) as usize;
     run.stage("ulp-windows", bs.len() * ww, |idx, acc| {
